@@ -24,6 +24,8 @@ use crate::{
 pub enum Origin {
     Stable,
     Lazer,
+    /// lazer + Classic, given as a borrowed intermode set that also contains a legacy-bit mod (Hidden); the
+    /// lazer representation of Classic is covered by the next two origins
     LazerClassic,
     /// lazer + Classic mod whose `no_slider_head_accuracy` setting is switched off again:
     /// scored like plain lazer (with slider accuracy)
@@ -40,7 +42,7 @@ impl Origin {
             Origin::Lazer => Difficulty::new().lazer(true),
             Origin::LazerClassic => Difficulty::new()
                 .lazer(true)
-                .mods(ModsSpec { bits: 0, repr: ModRepr::Lazer, extras: vec![LazerExtra::Classic] }.build(mode)),
+                .mods(ModsSpec { bits: crate::gen::diff::HD, repr: ModRepr::IntermodeRef, extras: vec![LazerExtra::Classic] }.build(mode)),
             Origin::LazerClassicHeadAcc => Difficulty::new().lazer(true).mods(Self::classic_with_head_acc(mode)),
             Origin::StableClassicHeadAcc => Difficulty::new().lazer(false).mods(Self::classic_with_head_acc(mode)),
         }
@@ -72,7 +74,7 @@ impl Origin {
         match self {
             Origin::Stable => p.lazer(false),
             Origin::Lazer => p.lazer(true),
-            Origin::LazerClassic => p.lazer(true).mods(ModsSpec { bits: 0, repr: ModRepr::Lazer, extras: vec![LazerExtra::Classic] }.build(mode)),
+            Origin::LazerClassic => p.lazer(true).mods(ModsSpec { bits: crate::gen::diff::HD, repr: ModRepr::IntermodeRef, extras: vec![LazerExtra::Classic] }.build(mode)),
             Origin::LazerClassicHeadAcc => p.lazer(true).mods(Self::classic_with_head_acc(mode)),
             Origin::StableClassicHeadAcc => p.lazer(false).mods(Self::classic_with_head_acc(mode)),
         }
